@@ -26,6 +26,22 @@ ASSUMPTIONS = ["CPython's str.isalpha / str.isupper enter the model as per-chara
                "the stack level reads the names back from the text produced by write_string with the default (plain) parse stack"]
 
 WITNESS_K3 = "xx~and B C"
+WITNESS_K10 = "{\\\\} \\\\{}"         # two words, each balanced for names.py, +1 / -1 for the splitter
+WITNESS_K11 = "Z @a~{x}"              # merges to "@a {x}, Z": a block-start pattern appears
+import re as _re
+K2_RE = _re.compile(r"@\w*[ \t]*\{")
+
+
+def merged_text(names):
+    """the text MergeNameParts (last-name-first) + MergeCoAuthors produce for the name fields, joined"""
+    out = []
+    for _, ds in names:
+        ps = []
+        for d in ds:
+            vl = " ".join(d["von"] + d["last"])
+            ps.append(", ".join(x for x in [vl, " ".join(d["jr"]), " ".join(d["first"])] if x))
+        out.append(" and ".join(ps))
+    return "\n".join(out)
 
 
 def generate(rng, tier):
@@ -83,9 +99,11 @@ def generate(rng, tier):
                 fields.append([key, rng.choice(["A Title and More", "On {and}", "Xx yy"])])
             else:
                 n = rng.randint(1, 5)
-                v = " and ".join(rng.choice(good) if rng.random() < 0.97 else rng.choice(["xx~and B C", "AND Y X"]) for _ in range(n))
+                v = " and ".join(rng.choice(good) if rng.random() < 0.97 else rng.choice(["xx~and B C", "AND Y X", WITNESS_K10, WITNESS_K11, "{a\\\\} {b} \\\\{c}", "Y x@b~{c}"]) for _ in range(n))
                 fields.append([key, v])
         cases.append({"stream": "stack", "input": {"level": "stack", "fields": fields}})
+    for w in (WITNESS_K10, WITNESS_K11):
+        cases.append({"stream": "witness", "input": {"level": "stack", "fields": [["author", w]]}})
     # sessions: one set of middleware objects for a whole multi-step program, results edited by the caller in between
     for _ in range(n_sess):
         cases.append({"stream": "session", "input": gen_session(rng, good, adm_name)})
@@ -368,7 +386,15 @@ def impl(case):
     orc = {"ok": ok, "detail": detail}
     if not ok and nc.in_k3(dicts):
         orc["known"] = "K3"
+    elif not ok and any("\\\\" in w for d in dicts for part in d.values() for w in part):
+        orc["known"] = "K10"          # a word with two adjacent backslashes: names.py and the splitter read the next brace differently
+    elif not ok and K2_RE.search(merged_text(names1)):
+        orc["known"] = "K11"          # the merged (last-name-first) text contains a block-start pattern
     rec["oracle"] = orc
+    if any("\\\\" in w for d in dicts for part in d.values() for w in part) or K2_RE.search(merged_text(names1)):
+        # op 91 models the write / re-parse legs as the identity on the merged text, which is what C14_stack_field_roundtrip
+        # proves under `writable`; inputs of the two known classes are exactly those outside it: Python oracle only
+        rec["skip"] = True
     rec["tags"].append("stack_admissible" if adm else "stack_outside_premises")
     rec["summary"] = repr(text2)[:200]
     return rec
